@@ -280,18 +280,15 @@ def for_target_alphabet(ctx):
     db = ctx.db
     mm = db.func("codegen.mangle_mako_loop")
     helpers = [db.defs["codegen." + n.func.id] for n in walk_func(mm) if isinstance(n, ast.Call) and isinstance(n.func, ast.Name) and ("codegen." + n.func.id) in db.defs and isinstance(db.defs["codegen." + n.func.id], ast.FunctionDef)]
-    uses_re = [n for f in [mm] + helpers for n in walk_func(f) if isinstance(n, ast.Call) and isinstance(n.func, ast.Attribute) and n.func.attr in ("match", "search", "fullmatch") and isinstance(n.func.value, ast.Name)]
+    from .common import regex_of
+    uses_re = [n for f in [mm] + helpers for n in walk_func(f) if isinstance(n, ast.Call) and isinstance(n.func, ast.Attribute) and n.func.attr in ("match", "search", "fullmatch") and regex_of(db, n, "codegen") is not None]
     uses_ast = [n for f in [mm] + helpers for n in walk_func(f) if isinstance(n, ast.Call) and (dotted(n.func) or "").split(".")[-1] in ("get_source_segment", "unparse")]
     if uses_ast and not uses_re:
         ctx.ok("header-parser", db.where(mm), "for header is parsed with the ast module: every Python target accepted by construction")
     else:
         ctx.require(uses_re, "mangle_mako_loop: neither a regex match nor an ast parse of the for header found")
-        name = uses_re[0].func.value.id
-        try:
-            node = db.module_assign("codegen", name)
-        except AnalysisError:
-            raise
-        pat = str_value(node.args[0]) if isinstance(node, ast.Call) else None
+        name = "for-header"
+        pat = regex_of(db, uses_re[0], "codegen")[1]
         ctx.require(pat is not None, "regex %s is not a constant" % name)
         sub = rx.parse(pat)
         g1 = rx.find_group(sub, 1)
